@@ -20,6 +20,36 @@ copydep xsync   golang.org/x/sync@v0.23.0 1.25.0
 copydep workiva 'github.com/!workiva/go-datastructures@v1.1.7' 1.24
 copydep quartz  github.com/reugn/go-quartz@v0.15.2 1.24
 copydep retry   github.com/flowchartsman/retry@v1.2.0 1.24
+# 1b. determinism patch of the quartz copy: a tick that is already due is taken directly instead of
+# through `timer.Reset(0); select {timer.C | interrupt | ctx.Done}` -- whether an already-expired timer's
+# channel is ready at that select is decided by the Go runtime's timer delivery, not by the simulator
+# (two interval jobs due at the same simulated instant made runs diverge). Every behaviour of the patched
+# loop is a behaviour of the original (select may always pick the ready timer case).
+python3 - <<'PYEOF'
+p='/verif/.cache/deps/quartz/quartz/scheduler.go'
+s=open(p).read()
+if 'verif: due tick' not in s:
+    old="""		default:
+			timer.Reset(sched.calculateNextTick())
+		}
+		select {"""
+    new="""		default:
+			d := sched.calculateNextTick()
+			if d <= 0 { // verif: due tick taken directly (determinism)
+				if ctx.Err() != nil {
+					timer.Stop()
+					return
+				}
+				sched.executeAndReschedule(ctx)
+				continue
+			}
+			timer.Reset(d)
+		}
+		select {"""
+    if old not in s:
+        raise SystemExit("quartz anchor missing")
+    open(p,'w').write(s.replace(old,new,1))
+PYEOF
 # 2. runtime overlay for the pinned toolchain
 ./mkrt.sh "$VERIF_CACHE/rt"
 # 3. tools
